@@ -194,7 +194,7 @@ def main(tier, seed):
     eng = engine.Engine(PROP, tier, seed, "model_checking")
     engine.selftest(eng)
     if tier == "quick":
-        plans = [dict(k=3, max_gens=2, max_edits=1, pool="p", sf2=False), dict(k=2, max_gens=2, max_edits=1, pool="p"),
+        plans = [dict(k=3, max_gens=2, max_edits=0, pool="p", sf2=False), dict(k=2, max_gens=2, max_edits=1, pool="p"),
                  dict(k=3, max_gens=2, max_edits=0, pool="t", sf2=False), dict(k=2, max_gens=2, max_edits=0, pool="x", sf2=False)]
     else:
         plans = [dict(k=3, max_gens=3, max_edits=1, pool="p", sf2=False), dict(k=3, max_gens=2, max_edits=1, pool="p"),
